@@ -74,6 +74,49 @@ func init() {
 		}
 		return -1
 	}
+	inSet := func(e *Engine, ch cvChar, set string) bool {
+		if ch.sym == nil {
+			for j := 0; j < len(set); j++ {
+				if set[j] == ch.b {
+					return true
+				}
+			}
+			return false
+		}
+		var alts []*Term
+		for j := 0; j < len(set); j++ {
+			alts = append(alts, Eq(ch.sym, KInt64(int64(set[j]))))
+		}
+		if len(alts) == 0 {
+			return false
+		}
+		return e.decide(Or(alts...))
+	}
+	trim := func(left, right bool) func(e *Engine, st *State, c *callCtx) bool {
+		return func(e *Engine, st *State, c *callCtx) bool {
+			cv, ok := symCV(e, st, c, 0)
+			set, ok2 := kstr(c, 1)
+			if !ok || !ok2 {
+				return false
+			}
+			for i := 0; i < len(set); i++ {
+				if set[i] >= 0x80 {
+					return false
+				}
+			}
+			for left && len(cv) > 0 && inSet(e, cv[0], set) {
+				cv = cv[1:]
+			}
+			for right && len(cv) > 0 && inSet(e, cv[len(cv)-1], set) {
+				cv = cv[:len(cv)-1]
+			}
+			c.ret(st, cvTerm(cv))
+			return true
+		}
+	}
+	optional("strings.Trim", trim(true, true))
+	optional("strings.TrimLeft", trim(true, false))
+	optional("strings.TrimRight", trim(false, true))
 	optional("strings.IndexAny", func(e *Engine, st *State, c *callCtx) bool {
 		cv, ok := symCV(e, st, c, 0)
 		set, ok2 := kstr(c, 1)
@@ -89,7 +132,17 @@ func init() {
 		if !ok || !ok2 {
 			return false
 		}
-		c.ret(st, KBool(anyOf(e, cv, set) >= 0))
+		var alts []*Term
+		for _, ch := range cv {
+			for j := 0; j < len(set); j++ {
+				alts = append(alts, Eq(ch.code(), KInt64(int64(set[j]))))
+			}
+		}
+		if len(alts) == 0 {
+			c.ret(st, tFalse)
+		} else {
+			c.ret(st, Or(alts...))
+		}
 		return true
 	})
 	optional("strings.ContainsRune", func(e *Engine, st *State, c *callCtx) bool {
@@ -98,7 +151,15 @@ func init() {
 		if !ok || !ok2 || !r.K || r.I.Int64() >= 128 {
 			return false
 		}
-		c.ret(st, KBool(e.cvIndex(cv, string([]byte{byte(r.I.Int64())})) >= 0))
+		var alts []*Term
+		for _, ch := range cv {
+			alts = append(alts, Eq(ch.code(), r))
+		}
+		if len(alts) == 0 {
+			c.ret(st, tFalse)
+		} else {
+			c.ret(st, Or(alts...))
+		}
 		return true
 	})
 	// REALNET=1 (harness parameter): net.ParseIP, net.ParseCIDR and net.IP.String are not modelled; their
@@ -222,33 +283,6 @@ func init() {
 	wrap("internal/bytealg.IndexByteString", index(false, true))
 	wrap("strings.LastIndex", index(true, false))
 	wrap("strings.LastIndexByte", index(true, true))
-	wrap("strings.Contains", func(e *Engine, st *State, c *callCtx) bool {
-		cv, ok := symCV(e, st, c, 0)
-		sub, ok2 := kstr(c, 1)
-		if !ok || !ok2 {
-			return false
-		}
-		c.ret(st, KBool(e.cvIndex(cv, sub) >= 0))
-		return true
-	})
-	wrap("strings.HasPrefix", func(e *Engine, st *State, c *callCtx) bool {
-		cv, ok := symCV(e, st, c, 0)
-		sub, ok2 := kstr(c, 1)
-		if !ok || !ok2 {
-			return false
-		}
-		c.ret(st, KBool(e.cvEqAt(cv, 0, sub)))
-		return true
-	})
-	wrap("strings.HasSuffix", func(e *Engine, st *State, c *callCtx) bool {
-		cv, ok := symCV(e, st, c, 0)
-		sub, ok2 := kstr(c, 1)
-		if !ok || !ok2 {
-			return false
-		}
-		c.ret(st, KBool(e.cvEqAt(cv, len(cv)-len(sub), sub)))
-		return true
-	})
 	wrap("strings.TrimPrefix", func(e *Engine, st *State, c *callCtx) bool {
 		cv, ok := symCV(e, st, c, 0)
 		sub, ok2 := kstr(c, 1)
